@@ -12,6 +12,7 @@ CONSTANTS
   ResetChoices <- ForgetSome
   TamperTags <- StripOnly
   CacheChoices = {"none"}
+  AckCodeChoices <- CodeAcks
   Concurrent = FALSE
   RecordHist = TRUE
 INVARIANT EmitUnsound
